@@ -23,6 +23,10 @@ def configs(r, tier_quick):
         out.append(("exact", dict(algo=algo)))
     out.append(("opt_primal", {}))
     out.append(("opt_dual", {}))
+    # scaling off: ONE pass of the simplex on the problem itself from the slack basis (with scaling on, a scaled copy is solved first
+    # and the problem is restarted from its final basis, which hides what the start-up code of the simplex does)
+    out.append(("opt_dual", dict(sc=0)))
+    out.append(("opt_primal", dict(sc=0)))
     extra = []
     for pp in PPRICE:
         extra.append(("opt_primal", dict(pp=pp)))
